@@ -66,9 +66,10 @@ SRC = os.path.join(lib.REPO, "src")
 # the process state of the model (Cache.state), by the name the snapshot gives it
 MODEL_STATE = {"cli:_load_handler": "lru", "dippy:MODE": "mode", "core.config:_log_config": "logcfg",
                "core.config:_log_disabled": "logdis"}
-# outside the model, on whole main() runs only: the first setup_logging() of a process installs the approvals-log
-# FileHandler (one descriptor, logging.root, raiseExceptions off).  A write-only sink: nothing in dippy reads
-# logging.root; C15 checks that it never reaches stdout.
+# outside the model, on whole main() runs and direct check_command calls only: the first setup_logging() of a process
+# installs the approvals-log FileHandler (one descriptor, logging.root, raiseExceptions off); without it the first
+# logging.warning() of approve/ask/deny makes the logging module install its stderr handler.  A write-only sink:
+# nothing in dippy reads logging.root; C15 checks that it never reaches stdout.
 MAIN_ONLY_STATE = {"proc:fds", "proc:logging.root", "proc:logging.raiseExceptions"}
 # Python's import memo: a module imported on first use (dippy.core.parser by the PostToolUse route, datetime by
 # log_decision) stays in sys.modules; its body runs once, as it would have at start-up
@@ -77,7 +78,7 @@ ALLOWED_STATE = set(MODEL_STATE) | MAIN_ONLY_STATE | IMPORT_MEMO
 
 
 def allowed(g, kind):
-    return g in MODEL_STATE or g in IMPORT_MEMO or g.startswith("import:") or (g in MAIN_ONLY_STATE and kind == "main")
+    return g in MODEL_STATE or g in IMPORT_MEMO or g.startswith("import:") or (g in MAIN_ONLY_STATE and kind in ("main", "check"))
 
 
 def group(path):
